@@ -1,7 +1,7 @@
 (* Search/NumericProofs.v — proofs about Search/Numeric.v (C10). *)
 From Coq Require Import ZArith List Bool Lia.
 From Coq Require Import ZifyBool.
-From Bluge Require Import Base.Int64 Base.Res Gen.Params Search.Numeric.
+From Bluge Require Import Base.Int64 Base.Res Gen.ParamsNumeric Search.Numeric.
 Import ListNotations.
 Open Scope Z_scope.
 
